@@ -75,6 +75,11 @@ def _playback_native(stage_dir, name_filter, log_path):
             "tail": "\n".join(out.splitlines()[-15:])}
 
 
+def _std_paths(ttext):
+    """The crate is no_std and some modules import heapless::Vec: spell std's paths out."""
+    return ttext.replace("Vec<Vec<u8>>", "std::vec::Vec<std::vec::Vec<u8>>").replace("vec![", "std::vec![")
+
+
 def _replay_failure(stage, h, res, log_path, jobs):
     """Concrete playback of a failing harness and native re-run.
     Returns dict(confirmed, file, detail)."""
@@ -82,7 +87,7 @@ def _replay_failure(stage, h, res, log_path, jobs):
     try:
         pr = kanirun.run_group(stage.dir, [h], jobs=1, timeout_s=max(h.timeout, 300) * 2, stub=h.stub,
                                cbmc_args=h.cbmc, solver=h.solver, log_path=log_path,
-                               playback="print", tag="pb_" + h.name)
+                               playback="print", tag="pb_" + h.name, unwindset=h.unwindset)
     except kanirun.BuildError as e:
         detail["error"] = "playback run failed: %s" % str(e)[:300]
         return {"confirmed": False, "file": None, "detail": detail}
@@ -95,7 +100,7 @@ def _replay_failure(stage, h, res, log_path, jobs):
     # (inplace would put them inside macro bodies of slice families)
     with open(stage.staged_harness(h.module), "a") as fh:
         for tname, ttext in gen:
-            fh.write("\n" + ttext + "\n")
+            fh.write("\n" + _std_paths(ttext) + "\n")
     nat = _playback_native(stage.dir, "kani_concrete_playback_%s_" % h.name, log_path)
     hit = None
     for tname, ttext in gen:
@@ -120,7 +125,7 @@ def _replay_failure(stage, h, res, log_path, jobs):
         fh.write("// native (dev profile) panic: %s\n" % msg[-300:].replace("\n", " "))
         fh.write("// re-run: ./check %s --replay %s\n" % (h.props[0], path))
         fh.write("// @module %s\n// @test %s\n" % (h.module, tname))
-        fh.write(ttext + "\n")
+        fh.write(_std_paths(ttext) + "\n")
     return {"confirmed": True, "file": path, "detail": detail}
 
 
@@ -187,7 +192,7 @@ def run(prop, tier, seed, keep=False, only=None, jobs=16):
                 to = max(h.timeout for h in grp)
                 r = kanirun.run_group(stage.dir, grp, jobs=jobs, timeout_s=to, stub=key[0],
                                       cbmc_args=key[1], solver=key[2], log_path=log_path,
-                                      tag="g%d" % len(groups_info))
+                                      tag="g%d" % len(groups_info), unwindset=key[3])
                 results.update(r["results"])
                 tools = r["tools"] or tools
                 groups_info.append({"cmd": r["cmd"], "wall_s": round(r["wall_s"], 1),
